@@ -1,7 +1,12 @@
 (* C02 — Generic parsing agrees with the RFC 7950 section 6 reading of the text.
    Only statements, closed by [exact], and Print Assumptions (printed by the checker).
-   [Parse] is the model of yang.Parse (Model/Lex.v, Model/Parse.v); [spec_parse] is the reference reader
-   of Spec/C02.v.  What is proved here and what is only tested is listed in check/manifest.d/C02.json. *)
+
+   [Parse] is the model of yang.Parse (Model/Lex.v, Model/Parse.v, tied to lex.go / parse.go by the
+   correspondence run of the check); [spec_parse] is the reference reader of Spec/C02.v: the RFC reading
+   written directly over the list of runes, which answers Accept forest, Reject, or Ambiguous on the
+   constructs the property excludes.  [terminated input] is the input forced to end in a line break, which
+   is what yang.Parse lexes.  The hypothesis that the text does not contain the rune 0x7fffffff (the
+   lexer's end-of-file sentinel) holds for every decoded text: UTF-8 decoding yields runes below 0x110000. *)
 From Coq Require Import List NArith ZArith Bool Lia.
 Import ListNotations.
 From GY Require Import Model.Lex Model.Parse Spec.C16 Spec.C02 Proofs.LexProofs Proofs.ParseProofs.
@@ -11,3 +16,44 @@ Local Open Scope Z_scope.
 Theorem C02_reject_shape : forall input ss es o, Parse input = (ss, es, o) ->
   (es <> [] -> ss = []) /\ (es = [] \/ ss = []).
 Proof. exact Parse_reject_shape. Qed.
+
+(* (2) token level.  From the ground state at any suffix [s] of a text that ends in a line break,
+   NextToken (with the fuel the parser gives it) returns exactly the token the reference reader reads at
+   [s] — same kind, same text: an unquoted run, a punctuation character, a single-quoted string verbatim, a
+   double-quoted string with escapes substituted, trailing blanks trimmed and continuation indentation
+   stripped, pattern mode honoured — writes no error, and leaves the lexer in the ground state at the
+   suffix where the reference reader continues (or stopped, at the end of the text).  Blanks and comments
+   before the token are skipped as the reference reader skips them.  Nothing is claimed where the
+   reference reader says Reject or Ambiguous. *)
+Theorem C02_token_agreement : forall text, ~ In EOFR text -> lf_term text -> forall n s l fuel,
+  (length s <= n)%nat -> glex text l s -> (2 * length s + 4 <= fuel)%nat ->
+  token_result text l fuel (read_token text (inPattern l) s).
+Proof. exact NextToken_sim. Qed.
+
+(* the double-quoted string by itself: the state machine of lexQString, started just after an opening
+   quote whose column is what the text says, emits exactly the string the line-wise reference reading
+   [dquoted] yields (no cursor counters on the reference side), whenever that reading is defined *)
+Theorem C02_dquoted_agreement : forall text l0 l s1 r t rest, ~ In EOFR text -> in_dq text l0 l s1 r ->
+  dquoted (inPattern l) (column_of text s1) r = DOk t rest ->
+  one_tok text l0 (lexQString l) TString t rest.
+Proof. exact lexQString_sim. Qed.
+
+(* its algorithmic core, free of any lexer state: the rune-at-a-time accumulator (trim the text so far at
+   every line break, skip blanks while the tab column is within the indent) computes the line-wise
+   reading (split at line breaks, strip, drop, substitute, join) *)
+Theorem C02_dquoted_linewise : forall pat q s t rest, dquoted pat q s = DOk t rest ->
+  exists its, dq_items s = Some (its, rest) /\ acc_loop pat (q + 1) true 0 [] its = Some t.
+Proof. exact dquoted_acc. Qed.
+
+(* (3) acceptance: whenever the reference reader accepts a text with forest [f], the parser reports no
+   error, does not run out of fuel, and returns exactly that forest: keywords, argument presence, exact
+   argument strings, nesting and sibling order.  For all texts, no size bound. *)
+Theorem C02_accept : forall input f, ~ In EOFR input -> spec_parse (terminated input) = Accept f ->
+  exists ss, Parse input = (ss, [], false) /\ map erase ss = f.
+Proof. exact Parse_accepts. Qed.
+
+(* non-vacuity: a text with a comment, a concatenation, a multi-line string and a pattern argument *)
+Example C02_accept_ex :
+  spec_parse [97;32;39;98;39;43;34;99;10;32;32;32;100;34;123;112;97;116;116;101;114;110;32;34;92;100;34;59;125;10]%N =
+  Accept [Node [97%N] true [98;99;10;100]%N [Node [112;97;116;116;101;114;110]%N true [92;100]%N []]].
+Proof. vm_compute. reflexivity. Qed.
